@@ -176,10 +176,12 @@ def build(name, vtype="real", pop=4, off=None, seed=None, constrained=False, nob
     elif name == "EpsNSGAII":
         alg = EpsNSGAII(problem, eps, population_size=pop, variator=var, **kw)
         if window is not None:
-            # same extension, short windows so that restarts happen within a few steps
+            # same extension, short windows so that restarts happen within a few steps;
+            # window = w  or  [window_size, max_window_size, min_population_size, max_population_size]
+            w = window if isinstance(window, (list, tuple)) else [window, 2 * window, 2, 12]
             alg.remove_extension(AdaptiveTimeContinuationExtension)
-            alg.add_extension(AdaptiveTimeContinuationExtension(window_size=window, max_window_size=2 * window,
-                                                                min_population_size=2, max_population_size=12))
+            alg.add_extension(AdaptiveTimeContinuationExtension(window_size=w[0], max_window_size=w[1],
+                                                                min_population_size=w[2], max_population_size=w[3]))
     elif name == "GDE3":
         if variator not in (None, "default", "de"):
             raise ValueError("GDE3 needs differential evolution")
